@@ -40,9 +40,12 @@ def log(msg):
     sys.stderr.flush()
 
 
-def sh(cmd, cwd=None, timeout=None, env=None, stdin=None):
-    """Run a command (list or string); return (rc, stdout+stderr as str)."""
+def sh(cmd, cwd=None, timeout=None, env=None, stdin=None, env_drop=None):
+    """Run a command (list or string); return (rc, stdout+stderr as str).  `env_drop(name) -> bool`
+    removes inherited variables before `env` is applied."""
     e = dict(os.environ)
+    if env_drop:
+        e = {k: v for k, v in e.items() if not env_drop(k)}
     e.update(OFFLINE_ENV)
     if env:
         e.update(env)
@@ -431,7 +434,7 @@ def harness_dir(repo):
 
 
 def cargo_build_bin(ctx, bin_name, features=("std", "serde", "stable_deref_trait", "unsize", "arc-swap"),
-                    release=False, extra_tag=""):
+                    release=False, extra_tag="", env=None, env_drop=None):
     """Build one harness binary against ctx.repo; returns (path or None, output)."""
     d = harness_dir(ctx.repo)
     tag = ("rel" if release else "dbg") + "-" + hashlib.sha1(",".join(sorted(features)).encode()).hexdigest()[:6] + extra_tag
@@ -441,7 +444,7 @@ def cargo_build_bin(ctx, bin_name, features=("std", "serde", "stable_deref_trait
     if release:
         cmd.append("--release")
     with Lock("cargo-" + os.path.basename(d) + "-" + tag):
-        rc, out = sh(cmd, cwd=d, timeout=1800)
+        rc, out = sh(cmd, cwd=d, timeout=1800, env=env, env_drop=env_drop)
     if rc != 0:
         return None, out
     return os.path.join(tdir, "release" if release else "debug", bin_name), out
